@@ -1,5 +1,5 @@
-\* NEGATIVE CONTROL, EXPECTED TO FAIL: the as-is model of the code (HTTPTrim = OWSTrim) refutes the strict Unchanged
-\* (open finding F11: HTTP strips outer blanks of an id). C20 propagation over the real stacks (net/http, gRPC over bufconn): ids "" (0), two plain ids (1, 2),
+\* AS-IS model of the real stacks (HTTPTrim = OWSTrim: net/http strips blanks around a header value): the weaker
+\* UnchangedUpToOWS holds. The property itself is MC_prop_wire.cfg (NoTrim, strict Unchanged). C20 propagation over the real stacks (net/http, gRPC over bufconn): ids "" (0), two plain ids (1, 2),
 \* an id with NUL/CR/LF (3: refused by both transports), an id with a high byte (4: refused by gRPC
 \* only), id 1 with a blank appended (5: HTTP delivers it trimmed, i.e. as id 1).
 CONSTANTS
@@ -14,6 +14,6 @@ CONSTANTS
 INIT Init
 NEXT Next
 VIEW view
-INVARIANTS TypeOK Unchanged NeverDefaulted RefusalHasReason
+INVARIANTS TypeOK UnchangedUpToOWS NeverDefaulted RefusalHasReason
 PROPERTIES AlteredOnlyByHTTPTrim TransportRefusalIsNotDelivery RefusalIsFinal
 CHECK_DEADLOCK FALSE
